@@ -81,7 +81,12 @@ def _gen_index_case(ch: core.Chooser) -> dict:
         ct: Any = [NORMS[i], NORMS[j]]
     else:
         ct = ch.choice(NORMS)
-    return {"start": start, "stop": stop, "dimensions": dims, "cross_truncation": ct, "graded": ch.chance(0.5), "reverse": ch.chance(0.5)}
+    case = {"start": start, "stop": stop, "dimensions": dims, "cross_truncation": ct, "graded": ch.chance(0.5), "reverse": ch.chance(0.5)}
+    if ch.chance(0.25):  # bounds as numpy integers/arrays of some dtype (e.g. read off poly.exponents, which is uint32)
+        case["bound_dtype"] = ch.choice(["uint8", "uint32", "int64", "int32", "uint64"])
+    if ch.chance(0.2):  # process-global floating-point error state: index generation never needs to divide by zero
+        case["errstate"] = "raise"
+    return case
 
 
 def generate(rs: int, tier: str, index: int) -> dict:
@@ -322,6 +327,9 @@ class Runner:
 
         kind = step["k"]
         kwargs = {"start": step["start"], "stop": step["stop"], "dimensions": step["dimensions"], "cross_truncation": _ct(step["cross_truncation"])}
+        if step.get("bound_dtype"):
+            dt = numpy.dtype(step["bound_dtype"])
+            kwargs["start"], kwargs["stop"] = (numpy.array(v, dtype=dt) if isinstance(v, list) else dt.type(v) for v in (step["start"], step["stop"]))
         if kind == "bindex":
             ordering = step["ordering"]
             graded, reverse, inverse = "G" in ordering, "R" not in ordering, "I" in ordering
@@ -344,6 +352,13 @@ class Runner:
                     self.bump("probe:returned_array_mutated_before_recall")
             except Exception:  # noqa: BLE001
                 pass
+        if step.get("errstate") == "raise":
+            inner = func
+
+            def func():  # noqa: F811
+                with numpy.errstate(all="raise"):
+                    return inner()
+
         results = self.under_policies(step, func)
         sure, maybe, key = ref_glexindex(step["start"], step["stop"], step["dimensions"], step["cross_truncation"], graded, reverse)
         base = self.check_policies(step, kind, {k: (self._mono_fp(v) if kind == "monomial" else v) for k, v in results.items()})
@@ -466,6 +481,9 @@ def simplify(plan: dict):
                             nk[r][j] = v - 1
                             yield dict(plan, steps=[dict(step, keys=nk)])
         elif step["k"] in ("glexindex", "bindex", "monomial"):
+            for key in ("bound_dtype", "errstate", "mutate_first"):
+                if step.get(key):
+                    yield dict(plan, steps=[{k: v for k, v in step.items() if k != key}])
             if step["dimensions"] > 1 and not isinstance(step["stop"], list) and not isinstance(step["start"], list):
                 yield dict(plan, steps=[dict(step, dimensions=step["dimensions"] - 1, names=(step.get("names") or [None])[:-1] if step.get("names") else None)])
             for key in ("stop", "start"):
